@@ -1,4 +1,3 @@
-(* WIP *)
 (* C11 — Receive Maximum flow control holds in both directions without leaking quota.
    Statements only.  Model: Session/Inflight.v (the four quota counters with inflight.go's saturating inc / dec at
    the places server.go calls them); verdict on the code: QosSpecs.chk11 on the observed history.
